@@ -332,5 +332,56 @@ template <class E> Segment c12Segment(long nQuick, long nThorough) {
     return s;
 }
 
+//================================================================================================ C13 with P-poly
+// build -> execute -> move in place -> rebuild -> execute: rhs == rhs_before + exact direct sum at the new positions
+template <class E> Segment c13PolySegment(long nQ, long nT) {
+    constexpr int D = E::Cfg::Dim;
+    using Real = typename E::Cfg::RealType;
+    Segment s; s.name = std::string("c13-poly-") + E::orderingName() + "-D" + vh::str(D);
+    s.count = [=](bool th) { return th ? nT : nQ; };
+    s.run = [=](long kk, uint64_t seed, bool, Result& res) {
+        vh::Rng r(vh::mix(seed ^ 0xC13B, uint64_t(kk) * 4 + D));
+        auto c = randomConf<E>(r, vh::mix(seed, kk), 250, false, E::Space::IsPeriodic ? 2 : 1);
+        const long N = long(c.parts.size());
+        const int cycles = int(r.range(1, 3));
+        res.desc = confDesc<E>(c) + " move/rebuild/execute cycles=" + vh::str(cycles) + " kernel=P-poly";
+        PolyRun<E, typename E::PolyKernel> pr; pr.build(c);
+        auto& tree = *pr.tree;
+        { TbfAlgorithm<Real, typename E::PolyKernel, typename E::Space> a(*pr.cfg, c.upper); a.execute(tree); }
+        pr.reference(false, res); pr.compare(res, "c13:poly-direct-sum-before");
+        std::vector<uint64_t> acc = pr.expected;
+        auto current = c.parts; long moved = 0;
+        for (int cyc = 0; cyc < cycles; ++cyc) {
+            tbx::DistState st; for (auto& x : st.c) x = r.unit(); for (auto& x : st.leaf) x = long(r.below(1u << 20));
+            const int dist = int(r.below(tbx::D_NB)); const double frac = r.coin(0.3) ? 1.0 : 0.1 + 0.8 * r.unit();
+            std::vector<std::array<Real, D>> prev;
+            tree.applyToAllLeaves([&](auto& hdr, const long* idx, auto&& data, auto&&) {
+                for (long p = 0; p < hdr.nbParticles; ++p) {
+                    if (!r.coin(frac)) continue;
+                    for (int tries = 0; tries < 50; ++tries) {
+                        auto pos = tbx::candidate<Real, D>(r, *pr.cfg, tries < 40 ? dist : int(tbx::D_UNIFORM), prev, st);
+                        if (!tbx::validPos<Real, D>(*pr.cfg, pos)) continue;
+                        for (int d = 0; d < D; ++d) { data[d][p] = pos[d]; current[idx[p]][d] = pos[d]; }
+                        ++moved; break;
+                    }
+                }
+            });
+            tree.rebuild();
+            // new lattice embedding for the moved particles (weights unchanged: same seed)
+            setupPolyCtx<E>(pr.ctx, *pr.cfg, current, current, c.seed, true);
+            { TbfAlgorithm<Real, typename E::PolyKernel, typename E::Space> a(*pr.cfg, c.upper); a.execute(tree); }
+            pr.reference(false, res);
+            pr.compare(res, "c13:poly-after-rebuild", 1, &acc);
+            for (long i = 0; i < N; ++i) acc[i] += pr.expected[i];
+            // data bit-identical to the edited array
+            tree.applyToAllLeaves([&](auto& hdr, const long* idx, auto&& data, auto&&) { for (long p = 0; p < hdr.nbParticles; ++p) for (int v = 0; v < E::NV; ++v) if (std::memcmp(&data[v][p], &current[idx[p]][v], sizeof(Real)) != 0) { res.fail("c13:data-not-bit-identical", "particle " + vh::str(idx[p]) + " value " + vh::str(v)); return; } });
+            res.ev("rebuild-cycles");
+        }
+        res.ev("particles-moved", moved); res.ev("leaf-changes", moved);
+        res.sig = "poly:" + confSig<E>(c, vh::mix(c.seed, 13)) + ",cyc" + vh::str(cycles); res.nontrivial = moved > 0 && N >= 2;
+    };
+    return s;
+}
+
 } // namespace fmm
 #endif
